@@ -12,8 +12,8 @@ Summary of what is proved (entry point × outcome):
 | pushes a barrier frame (`run`, `call_and_run_function` on a Koto callee, `run_*_op` on a Koto overload, each test of `run_tests`, `run` inside `run_import`) | ok, thrown, runtime error, failed type check, failed test, timeout, error in a nested entry, … (every event list) | restored (`entry_clean_frames`) | no residue (`entry_no_register_residue`) | restored iff no error unwinds through a builder opened inside (`raise_keeps_builders`, negations `run_builders_not_clean_*`) |
 | `call_and_run_function`, native callee | returns Ok / Err | restored (`entry_native_frames`) | restored (`call_native_ok_clean`, `call_native_err_clean` — since fix 5247d9c) | – |
 | `call_and_run_function`, `call_callable` fails (argument count, …) | – | restored | restored (`call_setup_fail_clean` — since fix 5247d9c) | – |
-| `run_*_op` through `call_overridden_op_N`, native overload returns Err / `call_callable` fails | – | restored | **residue `pre + 1 + args`** (`opcall_native_err_residue`, `opcall_setup_fail_residue`; F-C07-3) | – |
-| `run_*_op` performed natively | Ok / Err | restored | restored / **residue `pre`** (`op_direct_ok_clean`, `op_direct_err_residue`; F-C07-3) | – |
+| `run_*_op` through `call_overridden_op_N`, native overload returns Err / `call_callable` fails | – | restored | restored (`opcall_native_err_clean`, `opcall_setup_fail_clean`, `op_arith_overload_err_clean` — since fix d4834c0) | – |
+| `run_*_op` performed natively | Ok / Err | restored | restored (`op_direct_ok_clean`, `op_direct_err_clean` — since fix d4834c0) | – |
 | compile error | never enters the VM (no event) | – | – | – |
 -/
 import KotoVerif.Model.Unwind
@@ -134,7 +134,7 @@ theorem entry_native_frames (s : St) (pre args : Nat) (evs : List Ev)
 
 /-! ## `call_and_run_function` on a callee that fails before a frame is pushed
 (F-C07-1, repaired by fix 5247d9c: `truncate_registers(result_register)` before the error is
-propagated) — and the same early return in `run_*_op`, which is still there (F-C07-3) -/
+propagated) — and the same early return in `run_*_op` (F-C07-3, repaired by fix d4834c0) -/
 
 theorem runUntil_host (d : Nat) (evs : List Ev) (st : St) (h : st.conts.length ≤ d) :
     runUntil d evs st = st := by
@@ -230,20 +230,26 @@ theorem failing_calls_clean (n : Nat) (s : St) (hhost : inLoop s = false)
 
 example : snapshot (run (failingCalls 20) init).vm = (0, 0, 0, 0, 0) := by decide
 
-/-- F-C07-3: `run_*_op` through `call_overridden_op_N` on a native overload that returns `Err`:
-the `?` leaves exactly `pre + 1 + args` registers. -/
-theorem opcall_native_err_residue (s : St) (pre args : Nat) (hhost : inLoop s = false) :
+/-- `run_*_op` through `call_overridden_op_N` on a native overload that returns `Err` is clean
+(F-C07-3 before fix d4834c0: residue `pre + 1 + args`). -/
+theorem opcall_native_err_clean (s : St) (pre args : Nat) (hhost : inLoop s = false)
+    (hc : Consistent s.vm) (hw : s.vm.regs - s.vm.base < 256) :
     let s' := step (.nativeRet false) (step (.enterOp pre args .native) s)
-    s'.vm.regs = s.vm.regs + pre + 1 + args ∧ s'.conts = s.conts ∧ s'.vm.stack = s.vm.stack ∧
-    s'.vm.base = s.vm.base := by
-  simp [step, inLoop, enterOp, enterWith, raiseGo_host s hhost]
+    Clean s.vm s'.vm ∧ s'.conts = s.conts := by
+  have hr := hc.regs
+  have hw1 : (s.vm.regs - s.vm.base) % 256 = s.vm.regs - s.vm.base := Nat.mod_eq_of_lt hw
+  simp [step, inLoop, enterOp, enterWith, raiseGo_host s hhost, Clean, truncate, nextRegister, hw1]
+  omega
 
 /-- … and the same when `call_callable` fails before anything runs. -/
-theorem opcall_setup_fail_residue (s : St) (pre args : Nat) (hhost : inLoop s = false) :
+theorem opcall_setup_fail_clean (s : St) (pre args : Nat) (hhost : inLoop s = false)
+    (hc : Consistent s.vm) (hw : s.vm.regs - s.vm.base < 256) :
     let s' := step (.enterOp pre args .fail) s
-    s'.vm.regs = s.vm.regs + pre + 1 + args ∧ s'.conts = s.conts ∧ s'.vm.stack = s.vm.stack ∧
-    s'.vm.base = s.vm.base := by
-  simp [step, enterOp, enterWith, raiseGo_host s hhost]
+    Clean s.vm s'.vm ∧ s'.conts = s.conts := by
+  have hr := hc.regs
+  have hw1 : (s.vm.regs - s.vm.base) % 256 = s.vm.regs - s.vm.base := Nat.mod_eq_of_lt hw
+  simp [step, enterOp, enterWith, raiseGo_host s hhost, Clean, truncate, nextRegister, hw1]
+  omega
 
 /-- `run_unary_op` / `run_binary_op` / `run_read_op` / `run_write_op` whose operation is performed
 natively: clean when it succeeds … -/
@@ -254,78 +260,80 @@ theorem op_direct_ok_clean (s : St) (pre : Nat) (hc : Consistent s.vm)
   simp [step, enterDirect, Clean, truncate, nextRegister, Nat.mod_eq_of_lt hw]
   omega
 
-/-- … and leaves its `pre` operand registers behind when it fails (`?` before
-`get_overridden_op_result`). -/
-theorem op_direct_err_residue (s : St) (pre : Nat) (hhost : inLoop s = false) :
-    (step (.enterDirect pre false) s).vm.regs = s.vm.regs + pre ∧
+/-- … and clean when it fails (F-C07-3 before fix d4834c0: the `pre` operand registers stayed). -/
+theorem op_direct_err_clean (s : St) (pre : Nat) (hhost : inLoop s = false)
+    (hc : Consistent s.vm) (hw : s.vm.regs - s.vm.base < 256) :
+    Clean s.vm (step (.enterDirect pre false) s).vm ∧
     (step (.enterDirect pre false) s).conts = s.conts := by
-  simp [step, enterDirect, raiseGo_host s hhost]
+  have hr := hc.regs
+  have hw1 : (s.vm.regs - s.vm.base) % 256 = s.vm.regs - s.vm.base := Nat.mod_eq_of_lt hw
+  simp [step, enterDirect, raiseGo_host s hhost, Clean, truncate, nextRegister, hw1]
+  omega
 
-/-- F-C07-3, overload case: `run_binary_op(Add, o, 1)` on a fresh VM where `o`'s `@+` is a Koto
+/-- Overload case of F-C07-3: `run_binary_op(Add, o, 1)` on a fresh VM where `o`'s `@+` is a Koto
 function that throws. The body of `run_binary_op` holds 3 registers and runs the overload in a
 nested loop (`call_metamap_arithmetic_op`); on `Err` the barrier frame is popped (no resize) and
-the `?` returns: the 3 operand registers and the overload's `NewFrame 4` registers stay. When the
-overload returns normally the same entry is clean. -/
-theorem op_arith_overload_err_residue :
+the `?` returns with the 3 operand registers and the overload's `NewFrame 4` registers still live;
+the wrapper of fix d4834c0 then truncates them (before the fix the snapshot was `(7, 0, 0, 0, 0)`).
+When the overload returns normally the same entry is clean. -/
+theorem op_arith_overload_err_clean :
     snapshot (run [.enterOp 2 0 .native, .nested 1 1, .newFrame 4, .raise true, .nativeRet false] init).vm
-      = (7, 0, 0, 0, 0) ∧
+      = (0, 0, 0, 0, 0) ∧
     snapshot (run [.enterOp 2 0 .native, .nested 1 1, .newFrame 4, .ret, .nativeRet true] init).vm
       = (0, 0, 0, 0, 0) := by decide
 
-/-- Negation of `entry_clean` for `run_*_op` (F-C07-3): concrete witnesses on a fresh VM —
-`run_unary_op` on a native overload that fails, `call_callable` failing, and
-`run_binary_op(Add, 1, 'x')`. -/
-theorem opcall_native_err_not_clean :
-    ¬ Clean init.vm (run [.enterOp 2 0 .native, .nativeRet false] init).vm := by decide
-
-theorem opcall_setup_fail_not_clean :
-    ¬ Clean init.vm (run [.enterOp 2 0 .fail] init).vm := by decide
-
-theorem op_direct_err_not_clean :
-    ¬ Clean init.vm (step (.enterDirect 3 false) init).vm := by decide
-
-/-- The witnesses that were negations before fix 5247d9c are clean now. -/
+/-- The witnesses that were negations of `entry_clean` before the fixes 5247d9c / d4834c0 are clean
+now: failing native callee, failing argument setup, failing native overload, failing `run_binary_op`
+on mismatched operands. -/
 theorem call_native_err_clean_example :
     Clean init.vm (runEntry 1 1 .native [.nativeRet false] init).vm ∧
     Clean init.vm (runEntry 1 1 .fail [] init).vm := by decide
+
+theorem opcall_err_clean_example :
+    Clean init.vm (run [.enterOp 2 0 .native, .nativeRet false] init).vm ∧
+    Clean init.vm (run [.enterOp 2 0 .fail] init).vm ∧
+    Clean init.vm (step (.enterDirect 3 false) init).vm := by decide
 
 /-- `n` failing `run_binary_op` calls on mismatched operands. -/
 def failingOps : Nat → List Ev
   | 0 => []
   | n + 1 => .enterDirect 3 false :: failingOps n
 
-/-- The residue accumulates linearly … -/
-theorem failing_ops_residue (n : Nat) (s : St) (hhost : inLoop s = false) :
-    (run (failingOps n) s).vm.regs = s.vm.regs + 3 * n ∧ (run (failingOps n) s).conts = s.conts ∧
+/-- Any number of failing operator calls leaves the value stack as it was (regression statement
+for F-C07-3: before the fix the residue was `3 * n`, and after 86 calls `next_register()` wrapped). -/
+theorem failing_ops_clean (n : Nat) (s : St) (hhost : inLoop s = false)
+    (hr : s.vm.base ≤ s.vm.regs) (hw : s.vm.regs - s.vm.base < 256) :
+    (run (failingOps n) s).vm.regs = s.vm.regs ∧ (run (failingOps n) s).conts = s.conts ∧
     (run (failingOps n) s).vm.base = s.vm.base ∧ (run (failingOps n) s).vm.stack = s.vm.stack := by
   induction n generalizing s with
   | zero => simp [failingOps, run]
   | succ n ih =>
-    have h2 : step (.enterDirect 3 false) s = ⟨{ s.vm with regs := s.vm.regs + 3 }, s.conts⟩ := by
+    have h2 : step (.enterDirect 3 false) s =
+        ⟨truncate (nextRegister s.vm) { s.vm with regs := s.vm.regs + 3 }, s.conts⟩ := by
       simp [step, enterDirect, raiseGo_host s hhost]
     have hrun : run (failingOps (n + 1)) s = run (failingOps n) (step (.enterDirect 3 false) s) := by
       simp [failingOps, run]
     rw [hrun, h2]
-    have := ih ⟨{ s.vm with regs := s.vm.regs + 3 }, s.conts⟩ (by simpa [inLoop] using hhost)
+    have hw1 : (s.vm.regs - s.vm.base) % 256 = s.vm.regs - s.vm.base := Nat.mod_eq_of_lt hw
+    have hregs : (truncate (nextRegister s.vm) { s.vm with regs := s.vm.regs + 3 }).regs
+        = s.vm.regs := by
+      simp [truncate, nextRegister, hw1]; omega
+    have := ih ⟨truncate (nextRegister s.vm) { s.vm with regs := s.vm.regs + 3 }, s.conts⟩
+      (by simpa [inLoop] using hhost) (by rw [hregs]; simpa [truncate] using hr)
+      (by rw [hregs]; simpa [truncate] using hw)
     simp only [] at this
-    refine ⟨by rw [this.1]; omega, this.2.1, this.2.2.1, this.2.2.2⟩
+    refine ⟨by rw [this.1, hregs], this.2.1, by rw [this.2.2.1]; simp [truncate],
+      by rw [this.2.2.2]; simp [truncate]⟩
 
-/-- … and after 86 of them `next_register()` (a `u8`) no longer names the top of the value stack:
-the next host-initiated call takes register 2 as its result register while 258 registers are live,
-i.e. its frame aliases live registers and its final `truncate_registers` cuts the stack to 2. This
-is how early-return residue (F-C07-3; F-C07-1 before its fix) turns into wrong behaviour of a later,
-correct call. -/
-theorem residue_wraps_register_numbering :
-    (run (failingOps 86) init).vm.regs = 258 ∧ nextRegister (run (failingOps 86) init).vm = 2 ∧
-    (runEntry 1 1 (.koto 1) [.newFrame 3, .ret] (run (failingOps 86) init)).vm.regs = 2 := by
-  have h := failing_ops_residue 86 init (by decide)
-  have hconts : (run (failingOps 86) init).conts = [] := h.2.1
-  have hregs : (run (failingOps 86) init).vm.regs = 258 := by rw [h.1]; rfl
-  have hbase : (run (failingOps 86) init).vm.base = 0 := h.2.2.1
-  have hstack : (run (failingOps 86) init).vm.stack = [] := h.2.2.2
-  refine ⟨hregs, by simp [nextRegister, hregs, hbase], ?_⟩
-  generalize run (failingOps 86) init = st at *
-  obtain ⟨vm, conts⟩ := st
+/-- Why the theorems carry the hypothesis `regs - base < 256`: `next_register()` is a `u8`. On a VM
+whose window holds 258 live registers (the state that 86 leaking calls produced before the fixes)
+a host-initiated call takes register 2 as its result register, its frame aliases live registers and
+its final `truncate_registers` cuts the value stack to 2. -/
+theorem residue_wraps_register_numbering (s : St) (hconts : s.conts = []) (hstack : s.vm.stack = [])
+    (hbase : s.vm.base = 0) (hregs : s.vm.regs = 258) :
+    nextRegister s.vm = 2 ∧ (runEntry 1 1 (.koto 1) [.newFrame 3, .ret] s).vm.regs = 2 := by
+  refine ⟨by simp [nextRegister, hregs, hbase], ?_⟩
+  obtain ⟨vm, conts⟩ := s
   simp only [] at hconts hregs hbase hstack
   subst hconts
   simp [runEntry, runUntil, enter, enterWith, step, inLoop, callKoto, pushFrame, nextRegister, hregs,
@@ -422,8 +430,9 @@ theorem run_string_builder_not_clean :
 Koto callee on an instance without residue, for every execution *that executes no builder event*
 and every outcome. Exactly excluded: executions with `SequenceStart`/`StringStart`… events — for
 those `Clean` fails precisely when an error unwinds through a builder opened inside the bracket
-(`raise_keeps_builders` + the three witnesses above) — and the entry/outcome combinations of
-F-C07-3 (`opcall_native_err_residue`, `opcall_setup_fail_residue`, `op_direct_err_residue`). -/
+(`raise_keeps_builders` + the three witnesses above). (The early-return residue of F-C07-1 /
+F-C07-3 is gone since fixes 5247d9c / d4834c0: `call_*_clean`, `opcall_*_clean`,
+`op_direct_err_clean`.) -/
 def builderFree : List Ev → Bool
   | [] => true
   | .seqStart :: _ => false
@@ -456,13 +465,14 @@ theorem step_builders_of_not_builder_event (ev : Ev) (st : St)
   | strStart => simp [builderFree] at h
   | strEnd => simp [builderFree] at h
   | enter pre args c => exact enterWith_builders true pre args c st
-  | enterOp pre args c => exact enterWith_builders false pre args c st
+  | enterOp pre args c => exact enterWith_builders true pre args c st
   | enterDirect pre ok =>
     cases ok with
     | true => simp [step, enterDirect, truncate]
     | false =>
-      have := raise_keeps_builders st.conts true { st.vm with regs := st.vm.regs + pre }
-      simpa [step, enterDirect] using ⟨this.1, this.2.1⟩
+      have := raise_keeps_builders st.conts true
+        (truncate (nextRegister st.vm) { st.vm with regs := st.vm.regs + pre })
+      exact ⟨this.1, this.2.1⟩
   | newFrame n =>
     by_cases hin : inLoop st = true
     · cases hs : st.vm.stack <;> simp [step, hin, modTop, hs]
@@ -698,14 +708,14 @@ theorem step_rootExports (ev : Ev) (st : St) :
     ∃ k, ev = .exportVal k ∧ rootExports (step ev st) = rootExports st ++ [k] := by
   cases ev with
   | enter pre args c => exact Or.inl (enterWith_rootExports true pre args c st)
-  | enterOp pre args c => exact Or.inl (enterWith_rootExports false pre args c st)
+  | enterOp pre args c => exact Or.inl (enterWith_rootExports true pre args c st)
   | enterDirect pre ok =>
     left
     cases ok with
     | true => simp [step, enterDirect, rootExports, truncate]
     | false =>
       simp only [step, enterDirect, Bool.false_eq_true, if_false]; rw [raiseGo_rootExports]
-      simp [rootExports]
+      simp [rootExports, truncate]
   | nested a b =>
     left
     by_cases hfb : st.vm.regs - st.vm.base > 255
